@@ -28,7 +28,7 @@ Inductive meth :=
 | M_get | M_setdefault | M_clear | M_keys | M_values | M_items | M_popitem | M_update
 | M_copy | M_has_key
 | M_set                         (* Value.set; Value.get shares M_get *)
-| M_next                        (* __next__ *)
+| M_next | M_send               (* __next__, send (IteratorProxy._exposed_) *)
 | M_clone | M_me                (* harness type Shelf: proxy-returning methods *)
 | M_str | M_repr | M_getvalue   (* names in Server.fallback_mapping *)
 | M_iter | M_bogus | M_init.    (* '__iter__', 'bogus', '__init__': exposed nowhere *)
@@ -41,7 +41,7 @@ Definition mname (m : meth) : string :=
   | M_delitem => "__delitem__" | M_len => "__len__" | M_contains => "__contains__"
   | M_get => "get" | M_setdefault => "setdefault" | M_clear => "clear" | M_keys => "keys"
   | M_values => "values" | M_items => "items" | M_popitem => "popitem" | M_update => "update"
-  | M_copy => "copy" | M_has_key => "has_key" | M_set => "set" | M_next => "__next__"
+  | M_copy => "copy" | M_has_key => "has_key" | M_set => "set" | M_next => "__next__" | M_send => "send"
   | M_clone => "clone" | M_me => "me" | M_str => "__str__" | M_repr => "__repr__"
   | M_getvalue => "#GETVALUE" | M_iter => "__iter__" | M_bogus => "bogus" | M_init => "__init__"
   end)%string.
@@ -49,7 +49,7 @@ Definition mname (m : meth) : string :=
 Definition all_meths : list meth :=
   [M_append; M_extend; M_insert; M_pop; M_remove; M_index; M_count; M_reverse; M_sort;
    M_getitem; M_setitem; M_delitem; M_len; M_contains; M_get; M_setdefault; M_clear; M_keys;
-   M_values; M_items; M_popitem; M_update; M_copy; M_has_key; M_set; M_next; M_clone; M_me;
+   M_values; M_items; M_popitem; M_update; M_copy; M_has_key; M_set; M_next; M_send; M_clone; M_me;
    M_str; M_repr; M_getvalue; M_iter; M_bogus; M_init].
 
 Definition meth_eqb (a b : meth) : bool := String.eqb (mname a) (mname b).
@@ -244,16 +244,19 @@ Definition exposed_of (t : typ) (m : meth) : bool :=
              | _ => false
              end
   | TValue => match m with M_get | M_set => true | _ => false end
-  | TIter => false     (* IteratorProxy has no _exposed_ on Python 3: public_methods(iterator) = {} *)
+  | TIter => match m with M_next | M_send => true | _ => false end
+                       (* IteratorProxy._exposed_ = __next__, send, throw, close *)
   | TShelf => list_exposed m || match m with M_clone | M_me => true | _ => false end
   | TShelfRef => match m with M_append | M_len | M_getitem => true | _ => false end
   | TUnknown => false
   end.
 
-(* what the proxy class offers to its user (IteratorProxy defines __next__) *)
+(* what the proxy class offers to its user: IteratorProxy defines __next__ and send (among the
+   modelled names), the other proxy classes exactly their exposed methods.  (Before the repair
+   of IteratorProxy._exposed_ the server exposed nothing of what IteratorProxy offers.) *)
 Definition offered (t : typ) (m : meth) : bool :=
   match t, m with
-  | TIter, M_next => true
+  | TIter, M_next | TIter, M_send => true
   | _, _ => exposed_of t m
   end.
 
@@ -269,6 +272,7 @@ Definition m2t_of (t : typ) (m : meth) : option typ :=
 Definition has_attr (t : typ) (m : meth) : bool :=
   match t, m with
   | TDict, M_has_key => false
+  | TIter, M_send => false          (* a list iterator is not a generator *)
   | _, _ => true
   end.
 
